@@ -36,15 +36,17 @@ PRIMES = [2, 3, 5, 7, 11, 13, 17]
 
 CONFIGS = ["numeric", "numeric_cstr", "named", "named_cstr", "arrhenius", "arrhenius_unique", "arrhenius_param", "ramped_temp",
            "create_named", "create_arrhenius", "create_named_cstr", "create_named_symbols", "reassign", "subst_vs_constants",
-           "shared_expr", "unique_zero", "unique_zero_incl", "create_param_expr", "registry_named", "eyring"]
+           "shared_expr", "unique_zero", "unique_zero_incl", "create_param_expr", "registry_named", "eyring", "named_list_cstr"]
 
 # boundary structures: a reactant listed with coefficient 0, a zero-order source term (empty reactant side), a species only on the product side
 BOUNDARY = [
     [({"A": 1, "B": 0}, {"C": 1}, {}, {}), ({"B": 1, "C": 1}, {"A": 1}, {}, {})],
     [({}, {"A": 1}, {}, {}), ({"A": 1}, {"B": 1}, {}, {}), ({"A": 1, "B": 1}, {"C": 2}, {}, {})],
     [({"A": 2, "B": 0, "C": 0}, {"B": 1, "C": 1}, {}, {})],
+    # non-integral (python float, exactly representable) product coefficients
+    [({"A": 2}, {"B": 0.5, "C": 1.5}, {}, {}), ({"B": 1}, {"A": 1}, {}, {})],
 ]
-BOUNDARY_CONFIGS = ["named", "arrhenius", "arrhenius_unique", "create_named", "eyring", "unique_zero_incl"]
+BOUNDARY_CONFIGS = ["named", "arrhenius", "arrhenius_unique", "create_named", "eyring", "unique_zero_incl", "named_list_cstr"]
 
 
 def gen_systems(tier, seed):
@@ -150,7 +152,7 @@ def build_case(rxs, config):
         params = [int(a) for a in A]
         kfun = lambda P: [sp.Integer(int(a)) for a in A]  # noqa
         expected_params = set()
-    elif config in ("named", "named_cstr", "create_named", "create_named_cstr", "create_named_symbols"):
+    elif config in ("named", "named_cstr", "create_named", "create_named_cstr", "create_named_symbols", "named_list_cstr"):
         params = ["k%d" % i for i in range(nr)]
         kfun = lambda P: [P["k%d" % i] for i in range(nr)]  # noqa
         expected_params = set(params)
@@ -262,7 +264,8 @@ def build_case(rxs, config):
         odesys, extra = _create_odesys(rsys, **rkw)
     else:
         if cstr:
-            kw["cstr"] = True
+            # True (default key names) or the caller's own pair of keys - here given as a LIST, any two-element sequence is unpacked
+            kw["cstr"] = ["feedratio", OrderedDict([(k, "fc_" + k) for k in keys])] if config == "named_list_cstr" else True
         odesys, extra = get_odesys(rsys, **kw)
     if cstr:
         expected_params = set(expected_params) | {"feedratio"} | {"fc_" + k for k in keys}
